@@ -172,6 +172,7 @@ pub fn note_coverage(case: &Case, obs: &Observed, out: &mut Outcome) {
     out.count(&format!("channels_{}", case.audio.channels));
     out.count(if case.cfg.multithread { "mode_multithread" } else { "mode_singlethread" });
     out.add("frames", obs.rep.frames.len() as u64);
+    out.add("subframes_relying_on_32bit_wraparound", obs.rep.issues.iter().filter(|i| i.class == Class::Note).count() as u64);
     for f in &obs.rep.frames {
         out.count(&format!("assign_{:?}", f.header.assign).replace(['(', ')'], "_"));
         out.count(&format!("bs_code_{}", match f.header.bs_code { 6 => "8bit", 7 => "16bit", 1 => "192", 2..=5 => "576x", _ => "256x" }));
@@ -268,7 +269,7 @@ pub fn oracle_c01(ctx: &Ctx, sub: &str, idx: u64, case: &Case, obs: &Observed, o
             }
         }
         Err(e) => {
-            if rep.issues.is_empty() {
+            if rep.issues.iter().all(|i| i.class == Class::Note) {
                 out.inconclusive.push(format!("claxon rejects a stream refdec finds clean (case {sub}#{idx}): {e}"));
             } else {
                 out.count("claxon_rejected_stream_with_refdec_issue");
@@ -285,7 +286,7 @@ pub fn oracle_c02(ctx: &Ctx, sub: &str, idx: u64, case: &Case, obs: &Observed, o
         let relevant = match i.class {
             Class::Fatal | Class::Format => true,
             Class::Integrity => i.clause.starts_with("frame.crc"),
-            Class::Bounds => false,
+            Class::Bounds | Class::Note => false,
         };
         if relevant {
             out.violation(format!("C02|{}", i.clause), format!("frame {:?}: {}", i.frame, i.detail), rp());
